@@ -148,7 +148,17 @@ func NewServerWithOptions(laddr string, opt Options) (*Server, error) {
 	// Init from storage.
 	for _, tbl := range s.s.storage.GetTables() {
 		rows := s.s.storage.Open(tbl)
-		s.s.tables[tbl.Name] = newTable(tbl, rows)
+		t := newTable(tbl, rows)
+		// Dropping a column family persists the new definition first and purges the family's cells afterwards,
+		// row by row. If the process died in between, finish the purge now: otherwise rows that only held
+		// such cells stay stored (and sampled), and the cells come back if a family of that name is created again.
+		t.rows.Ascend(func(r *btpb.Row) bool {
+			if r, changed := scrubRow(r, t.cols()); changed {
+				t.updateRow(r)
+			}
+			return true
+		})
+		s.s.tables[tbl.Name] = t
 	}
 
 	btapb.RegisterBigtableInstanceAdminServer(s.srv, s.s)
